@@ -42,3 +42,15 @@ check("C16", "fault_enumeration", "fault injection through the caller's io.Reade
       "One recorded known finding (old fixed-length by_header_footer, partial header line).",
       "Faults are errors.New values; a fault the library never reads up to is not counted.",
       "DESIGN.md section 3 C16")
+
+check("C18", "exploration", "runtime self-differential monitor: (bytes, declared encoding) vs (harness-converted UTF-8, utf-8); BOM vs BOM-less",
+      "Held on every generated input (quick 2.8e3, thorough 1.4e5 comparisons): all 256 byte values per format and encoding as payload, pairs around "
+      "structural bytes, undefined windows-1252 bytes, EF BB BF under each encoding, BOM split across one-byte reads; identical results, errors and checksums.",
+      "Harness conversion tables define the code pages; for the five undefined windows-1252 bytes both customary treatments (C1 control / U+FFFD) are accepted.",
+      "DESIGN.md section 3 C18")
+
+check("C17", "exploration", "runtime retention monitor: reachable-node count sampled at delivered records of lazily generated streams",
+      "Held on every sampled record of 56 streams (7 formats x separators x pass/filter/failing/rich; quick 5e3, thorough 2e5 records each): tree size "
+      "in the second half never exceeds the first quarter's maximum. One recorded known finding (xml inter-record text nodes).",
+      "Retention = reachable idr nodes (the statement's metric). Records of a stream share one shape.",
+      "DESIGN.md section 3 C17")
